@@ -236,6 +236,14 @@ theorem absR_with_first (lk : Option Region) (c : St) (f : Option Nat) :
   · split <;> rfl
   · rfl
 
+/-- The steps at which something becomes visible to the coarse model: every step outside the blocks, and the last shared
+    write of each block. -/
+def commits : Label2 → Bool
+  | .base _ => true
+  | .put _ => true
+  | .fstop _ => true
+  | _ => false
+
 section
 variable {g : Graph} {cfg : Cfg} {s s' : St2}
 
@@ -243,7 +251,7 @@ variable {g : Graph} {cfg : Cfg} {s s' : St2}
 theorem sim_counter (hg : g.WF) {l : Label2} (hr : Reach g cfg (abs s)) (hf : FInv g s)
     (hl : (∃ w y, l = .acquire w y) ∨ (∃ w, l = .dec w) ∨ (∃ w, l = .test w) ∨ (∃ w, l = .put w) ∨ (∃ w, l = .unlock w))
     (h : step2? g cfg s l = some s') :
-    FInv g s' ∧ (abs s' = abs s ∨ ∃ l1, step? g cfg (abs s) l1 = some (abs s')) := by
+    FInv g s' ∧ (if commits l then ∃ l1, step? g cfg (abs s) l1 = some (abs s') else abs s' = abs s) := by
   obtain ⟨hfR, hfF⟩ := hf
   rcases hl with ⟨w, y, rfl⟩ | ⟨w, rfl⟩ | ⟨w, rfl⟩ | ⟨w, rfl⟩ | ⟨w, rfl⟩
   · -- acquire
@@ -253,9 +261,10 @@ theorem sim_counter (hg : g.WF) {l : Label2} (hr : Reach g cfg (abs s)) (hf : FI
       split at h
       · next hc =>
         cases h
-        refine ⟨⟨?_, hfF⟩, Or.inl ?_⟩
+        refine ⟨⟨?_, hfF⟩, ?_⟩
         · exact ⟨hc.1, by simpa using hc.2, by simpa using hw, fun b hb => by cases hb⟩
-        · simp [abs, absR, hlk]
+        · show abs _ = abs s
+          simp [abs, absR, hlk]
       · cases h
     · cases h
   · -- dec
@@ -284,10 +293,11 @@ theorem sim_counter (hg : g.WF) {l : Label2} (hr : Reach g cfg (abs s)) (hf : FI
         have hpos : 1 ≤ s.c.rem r.y := by
           have := rem_pos hg hi (w := r.w) (by rw [haws]; exact hws') hy (by omega)
           rwa [harem] at this
-        refine ⟨⟨?_, ?_⟩, Or.inl ?_⟩
+        refine ⟨⟨?_, ?_⟩, ?_⟩
         · exact ⟨hy, hns, by simpa using hws, fun b hb => by cases hb⟩
         · exact hfF
-        · simp only [abs, absR, hlk, hst]
+        · show abs _ = abs s
+          simp only [abs, absR, hlk, hst]
           rw [bump_dec hpos]
       · cases h
     · cases h
@@ -302,9 +312,10 @@ theorem sim_counter (hg : g.WF) {l : Label2} (hr : Reach g cfg (abs s)) (hf : FI
         simp only [hlk] at hfR
         obtain ⟨hy, hns, hws, _⟩ := hfR
         simp only [hst] at hws
-        refine ⟨⟨?_, hfF⟩, Or.inl ?_⟩
+        refine ⟨⟨?_, hfF⟩, ?_⟩
         · exact ⟨hy, hns, by simpa using hws, fun b hb => by cases hb; rfl⟩
-        · simp [abs, absR, hlk, hst]
+        · show abs _ = abs s
+          simp [abs, absR, hlk, hst]
       · cases h
     · cases h
   · -- put: the block takes effect
@@ -323,7 +334,7 @@ theorem sim_counter (hg : g.WF) {l : Label2} (hr : Reach g cfg (abs s)) (hf : FI
           have hb' := hb b hst
           have hws' : s.c.ws[r.w]? = some (W.releasing r.x r.todo) := by simpa using hws
           have hlt := (List.getElem?_eq_some_iff.mp hws').1
-          refine ⟨⟨?_, ?_⟩, Or.inr ⟨.release r.w r.y, ?_⟩⟩
+          refine ⟨⟨?_, ?_⟩, (show ∃ l1, step? g cfg (abs s) l1 = some (abs _) from ⟨.release r.w r.y, ?_⟩)⟩
           · refine ⟨hy, hns, ?_, fun b' hb'' => by cases hb''⟩
             simp only [setW, if_true]
             simp [List.getElem?_set, hlt]
@@ -364,7 +375,7 @@ theorem sim_counter (hg : g.WF) {l : Label2} (hr : Reach g cfg (abs s)) (hf : FI
       split at h
       · next hc =>
         cases h
-        exact ⟨⟨by simp, hfF⟩, Or.inl (by simp [abs, absR, hlk, hc.2])⟩
+        exact ⟨⟨by simp, hfF⟩, (show abs _ = abs s by simp [abs, absR, hlk, hc.2])⟩
       · cases h
     · cases h
 
@@ -372,7 +383,7 @@ theorem sim_counter (hg : g.WF) {l : Label2} (hr : Reach g cfg (abs s)) (hf : FI
 theorem sim_failure {l : Label2} (hf : FInv g s)
     (hl : (∃ w, l = .facquire w) ∨ (∃ w, l = .fcount w) ∨ (∃ w, l = .ffirst w) ∨ (∃ w, l = .fstop w) ∨ (∃ w, l = .funlock w))
     (h : step2? g cfg s l = some s') :
-    FInv g s' ∧ (abs s' = abs s ∨ ∃ l1, step? g cfg (abs s) l1 = some (abs s')) := by
+    FInv g s' ∧ (if commits l then ∃ l1, step? g cfg (abs s) l1 = some (abs s') else abs s' = abs s) := by
   obtain ⟨hfR, hfF⟩ := hf
   rcases hl with ⟨w, rfl⟩ | ⟨w, rfl⟩ | ⟨w, rfl⟩ | ⟨w, rfl⟩ | ⟨w, rfl⟩
   · -- facquire
@@ -380,9 +391,10 @@ theorem sim_failure {l : Label2} (hf : FInv g s)
     split at h
     · next x hfl hw =>
       cases h
-      refine ⟨⟨hfR, ?_⟩, Or.inl ?_⟩
+      refine ⟨⟨hfR, ?_⟩, ?_⟩
       · exact ⟨by simpa using hw, fun _ => rfl, (fun hh => by cases hh), (fun hh => by cases hh)⟩
-      · simp [abs, absF, hfl]
+      · show abs _ = abs s
+        simp [abs, absF, hfl]
     · cases h
   · -- fcount
     simp only [step2?] at h
@@ -395,9 +407,10 @@ theorem sim_failure {l : Label2} (hf : FInv g s)
         simp only [hfl] at hfF
         obtain ⟨hfw, h1, _, _⟩ := hfF
         simp only [hst] at hfw
-        refine ⟨⟨hfR, ?_⟩, Or.inl ?_⟩
+        refine ⟨⟨hfR, ?_⟩, ?_⟩
         · exact ⟨by simpa using hfw, (fun hh => by cases hh), fun _ => ⟨h1 hst, by simp⟩, (fun hh => by cases hh)⟩
-        · simp only [abs, absF, hfl, hst]
+        · show abs _ = abs s
+          simp only [abs, absF, hfl, hst]
           rw [absR_with_errs]
           have := (absR_fields s.lock s.c).2.2.2.1
           simp only [this, Nat.add_sub_cancel]
@@ -416,10 +429,11 @@ theorem sim_failure {l : Label2} (hf : FInv g s)
         obtain ⟨hfw, _, h2, _⟩ := hfF
         simp only [hst] at hfw
         obtain ⟨hfirst, hpos⟩ := h2 hst
-        refine ⟨⟨hfR, ?_⟩, Or.inl ?_⟩
+        refine ⟨⟨hfR, ?_⟩, ?_⟩
         · exact ⟨by simpa using hfw, (fun hh => by cases hh), (fun hh => by cases hh),
             fun _ => ⟨by show (match s.c.first with | some f => some f | none => some r.x) = _; rw [hfirst], hpos⟩⟩
-        · simp only [abs, absF, hfl, hst]
+        · show abs _ = abs s
+          simp only [abs, absF, hfl, hst]
           rw [absR_with_first]
           have := (absR_fields s.lock s.c).2.2.2.2.1
           simp [this, hfirst]
@@ -439,7 +453,7 @@ theorem sim_failure {l : Label2} (hf : FInv g s)
         obtain ⟨hfirst, hpos⟩ := h3 hst
         have hfw' : s.c.ws[r.w]? = some (W.running r.x) := by simpa using hfw
         have hlt := (List.getElem?_eq_some_iff.mp hfw').1
-        refine ⟨⟨?_, ?_⟩, Or.inr ⟨.finFail r.w, ?_⟩⟩
+        refine ⟨⟨?_, ?_⟩, (show ∃ l1, step? g cfg (abs s) l1 = some (abs _) from ⟨.finFail r.w, ?_⟩)⟩
         · cases hlk : s.lock with
           | none => simp
           | some q =>
@@ -472,7 +486,7 @@ theorem sim_failure {l : Label2} (hf : FInv g s)
       split at h
       · next hc =>
         cases h
-        exact ⟨⟨hfR, by simp⟩, Or.inl (by simp [abs, absF, hfl, hc.2])⟩
+        exact ⟨⟨hfR, by simp⟩, (show abs _ = abs s by simp [abs, absF, hfl, hc.2])⟩
       · cases h
     · cases h
 
@@ -533,9 +547,9 @@ theorem sim_base {l : Label} (hf : FInv g s) (h : step2? g cfg s (.base l) = som
 
 /-- **One fine step is one coarse step or none** (and `FInv` is kept). -/
 theorem sim (hg : g.WF) {l : Label2} (hr : Reach g cfg (abs s)) (hf : FInv g s) (h : step2? g cfg s l = some s') :
-    FInv g s' ∧ (abs s' = abs s ∨ ∃ l1, step? g cfg (abs s) l1 = some (abs s')) := by
+    FInv g s' ∧ (if commits l then ∃ l1, step? g cfg (abs s) l1 = some (abs s') else abs s' = abs s) := by
   cases l with
-  | base l => obtain ⟨a, b⟩ := sim_base hf h; exact ⟨a, Or.inr ⟨l, b⟩⟩
+  | base l => obtain ⟨a, b⟩ := sim_base hf h; exact ⟨a, (show ∃ l1, _ from ⟨l, b⟩)⟩
   | acquire w y => exact sim_counter hg hr hf (Or.inl ⟨w, y, rfl⟩) h
   | dec w => exact sim_counter hg hr hf (Or.inr (Or.inl ⟨w, rfl⟩)) h
   | test w => exact sim_counter hg hr hf (Or.inr (Or.inr (Or.inl ⟨w, rfl⟩))) h
@@ -557,9 +571,10 @@ theorem refine_reach {g : Graph} (hg : g.WF) {cfg : Cfg} {s : St2} (h : Reach2 g
   | step l _ hs ih =>
     obtain ⟨hf, hstep⟩ := sim hg ih.1 ih.2 hs
     refine ⟨?_, hf⟩
-    rcases hstep with heq | ⟨l1, hl1⟩
-    · rw [heq]; exact ih.1
-    · exact Reach.step l1 ih.1 hl1
+    split at hstep
+    · obtain ⟨l1, hl1⟩ := hstep
+      exact Reach.step l1 ih.1 hl1
+    · rw [hstep]; exact ih.1
 
 /-- The locked decrement never underflows: whenever the lock holder is about to decrement, the counter is positive. -/
 theorem dec_positive {g : Graph} (hg : g.WF) {cfg : Cfg} {s : St2} (h : Reach2 g cfg s) {r : Region}
